@@ -24,3 +24,55 @@ pub fn page_to_bytes(start: u64, bytes: u32, values: u32, raw: bool) -> Vec<u8> 
     };
     p.to_bytes().to_vec()
 }
+
+/// A size threshold that is a compile-time constant in normal builds and a run-time value
+/// under the verification guard, so that batch boundaries and the mmap/IO crossover can be
+/// reached with small inputs.  Supports exactly the operators the call sites use.
+#[derive(Clone, Copy)]
+pub struct Tunable(&'static std::sync::atomic::AtomicUsize);
+
+impl Tunable {
+    #[inline]
+    pub fn get(self) -> usize {
+        self.0.load(std::sync::atomic::Ordering::Relaxed)
+    }
+    pub fn set(self, v: usize) {
+        self.0.store(v, std::sync::atomic::Ordering::Relaxed)
+    }
+    #[inline]
+    pub fn div_ceil(self, rhs: usize) -> usize {
+        self.get().div_ceil(rhs)
+    }
+}
+
+impl std::ops::Div<usize> for Tunable {
+    type Output = usize;
+    #[inline]
+    fn div(self, rhs: usize) -> usize {
+        self.get() / rhs
+    }
+}
+
+impl PartialEq<Tunable> for usize {
+    #[inline]
+    fn eq(&self, other: &Tunable) -> bool {
+        *self == other.get()
+    }
+}
+
+impl PartialOrd<Tunable> for usize {
+    #[inline]
+    fn partial_cmp(&self, other: &Tunable) -> Option<std::cmp::Ordering> {
+        self.partial_cmp(&other.get())
+    }
+}
+
+static MAX_CACHE_SIZE_CELL: std::sync::atomic::AtomicUsize =
+    std::sync::atomic::AtomicUsize::new(1024 * 1024 * 1024);
+static MMAP_CROSSOVER_CELL: std::sync::atomic::AtomicUsize =
+    std::sync::atomic::AtomicUsize::new(1024 * 1024 * 1024);
+
+#[allow(non_upper_case_globals)]
+pub static MAX_CACHE_SIZE: Tunable = Tunable(&MAX_CACHE_SIZE_CELL);
+#[allow(non_upper_case_globals)]
+pub static MMAP_CROSSOVER_BYTES: Tunable = Tunable(&MMAP_CROSSOVER_CELL);
